@@ -11,6 +11,7 @@ import json
 import os
 import random
 import re
+import shutil
 import time
 
 from vplib import *
@@ -215,12 +216,18 @@ def norm_call(c):
 
 
 # ---------------------------------------------------------------- running the implementation
+def run_dir():
+    """per-process scratch directory (several checks may run at the same time)"""
+    d = os.path.join(BUILD, "run", "c11", "p%d" % os.getpid())
+    os.makedirs(d, exist_ok=True)
+    return d
+
+
 def run_impl(seqs, tag, timeout=600):
     """Runs the Go harness; restarts after a sequence that killed or hung the process.
     Returns {seq id: {"lines": [...], "fatal": None | text}}."""
-    d = os.path.join(BUILD, "run", "c11")
-    os.makedirs(d, exist_ok=True)
-    ov = go_overlay({"internal/index/manager/zz_verif_c11_test.go": os.path.join(ROOT, "harness/c11/zz_verif_c11_test.go")}, "c11")
+    d = run_dir()
+    ov = go_overlay({"internal/index/manager/zz_verif_c11_test.go": os.path.join(ROOT, "harness/c11/zz_verif_c11_test.go")}, "c11_%d" % os.getpid())
     res, todo, note = {}, list(seqs), ""
     rounds = 0
     while todo and rounds < 12:
@@ -261,8 +268,8 @@ def run_impl(seqs, tag, timeout=600):
             continue
         m = re.search(r"(panic: .*?)(?:\n\n|\Z)", out, re.S)
         res[last]["fatal"] = (m.group(1)[:600] if m else "exit code %d: %s" % (rc, out[-600:]))
-        idx = [s["id"] for s in todo].index(last)
-        todo = todo[idx + 1:]
+        # the first sequence that kills the service is the failing input; the rest is not needed
+        break
     return res, note.strip()
 
 
@@ -488,7 +495,7 @@ def model_text(seq, impl, orig=False):
 
 
 def run_model(exe, seqs, impls, tag, orig=False):
-    d = os.path.join(BUILD, "run", "c11")
+    d = run_dir()
     cf, mf = os.path.join(d, "model_%s.txt" % tag), os.path.join(d, "model_%s.out" % tag)
     with open(cf, "w") as f:
         for s in seqs:
@@ -662,6 +669,7 @@ def main(tier, seed, replay=None):
     })
     known, fixed = known_findings(PROP)
     cov["fixed_findings"] = fixed
+    shutil.rmtree(run_dir(), ignore_errors=True)
     write_evidence(PROP, tier, seed, cov,
                    ["query.Parse results as observed", "one UpdateTag operation per call in the model", "no I/O failure of state file / converter cache"],
                    time.time() - t0, nviol)
